@@ -158,12 +158,12 @@ def c12_shapes(fam, tier):
 def c09_shapes(tier):
     # (metric, strategy, history, second rule metric + 1)
     if tier == 'quick':
-        return [(0, 0, 2, 0), (0, 1, 2, 0), (4, 0, 1, 0), (4, 1, 2, 0), (1, 0, 2, 0), (2, 0, 2, 0), (3, 0, 2, 0), (2, 0, 1, 4), (0, 1, 1, 3)]
+        return [(0, 0, 2, 0), (0, 1, 2, 0), (4, 0, 1, 0), (4, 1, 2, 0), (1, 0, 2, 0), (2, 0, 2, 0), (3, 0, 2, 0), (2, 0, 1, 4), (0, 1, 1, 3), (0, 1, 4, 0, 1)]
     out = []
     for m in range(5):
         for st in ((0, 1) if m in (0, 4) else (0,)):
             out.append((m, st, 3, 0))
-    out += [(2, 0, 2, 4), (0, 1, 2, 3), (4, 1, 2, 2), (1, 0, 2, 5), (3, 1, 2, 1)]
+    out += [(2, 0, 2, 4), (0, 1, 2, 3), (4, 1, 2, 2), (1, 0, 2, 5), (3, 1, 2, 1), (0, 1, 4, 0, 1), (4, 1, 4, 0, 1), (0, 1, 5, 0, 1)]
     return out
 
 def c08_shapes(tier):
@@ -236,7 +236,7 @@ PROPS = {
     'C09': {
         'level': 'model_checking',
         'bounds': 'all five metric types x both strategies, 1-2 rules; thresholds symbolic in quarters in [0,4] (CPU: [0,100]); injected load in quarters in [0,1], CPU in {0,25,50,75,100}; '
-                  'inbound history of 1-2 (quick) / 2-3 (thorough) entries with symbolic gaps in [0,600] ms, each completed after 10/100/250 ms or left open; probe inbound or outbound after a gap in [0,600] ms',
+                  'inbound history of 1-2 (quick) / 2-3 (thorough) entries with symbolic gaps in [0,600] ms, each completed after 10/100/250 ms or left open (plus a BBR pattern: two completed entries with response times from {1,100,1000} ms and two or three left in flight); probe inbound or outbound after a gap in [0,600] ms',
         'assumptions': ['load/CPU readings injected through the verif_set_readings hook', 'chain of the real prepare, system and resource-statistic slots plus an observer slot',
                         'observed values recomputed from a ledger with the window function of the default metric (two 500 ms buckets)'],
         'scenarios': [
